@@ -9,8 +9,8 @@ CHECK = {
             "vocabulary, raw queries, binary bodies), 14% near misses of the hijacked endpoints, 8% malformed targets/queries; about 1 case in 150 (and 11 "
             "corpus lines) is run against a proxy configured with small timeouts (read_header_timeout 200-300 ms, idle_timeout 50 ms-60 s) and a daemon "
             "that starts answering later than every one of them and/or pauses in the middle of its body (tokens cf= dl=); half of the repo/stat cases "
-            "with peers let a random subset of the per-peer RepoStat calls fail (token sb=), repo/gc cases with stream-errors=true let the collection "
-            "report a failed peer and/or a key error (token ge=); "
+            "with peers let a random subset of the per-peer RepoStat calls fail (token sb=), half of the repo/gc cases (any stream-errors value) let the collection "
+            "report a failed peer and/or a key error (token ge=; without stream-errors=true that is the known finding K12d, which the model follows); "
             "non-trivial = the request target decodes (the property constrains it); distinct by case line",
     "trusted_base": ["recording fake IPFS daemon (net/http server recording RequestURI, headers, body) and recording fake Cluster/IPFSConnector/Consensus "
                      "gorpc services with scripted answers and failures",
@@ -30,16 +30,14 @@ CHECK = {
                     "cases; read_timeout = write_timeout = 0 (their defaults); one fresh proxy per request",
                     "request targets are origin-form; CONNECT, OPTIONS * and absolute-form targets are not generated",
                     "add options expire-at/expire-in/pin-update/origins and shard=true are outside the model (sharded adding is C13's)",
-                    "boolean options are constrained by the Spec only in their documented spellings true/false",
-                    "repo/gc collections that report peer/key errors are generated only with stream-errors=true until the proposed finding K12d "
-                    "(X-Stream-Error after the collection ran; notes/C12.md Round 8b) is registered; VERIF_C12_GCERR=1 generates the others"],
+                    "boolean options are constrained by the Spec only in their documented spellings true/false"],
 }
 META = {
     "text": "The hijack table of ipfsproxy.New is regenerated from the source on every run and proved (decide) to be exactly the frozen expectation; "
             "kernel-checked theorems show that the model's gorilla/mux router over that table classifies every (method, path) exactly as the property's "
             "definition of a hijacked request, that every non-hijacked request with a clean path is relayed with identical method, path, query, headers "
             "and body and answered with the daemon's response, that a hijacked request is never forwarded as the call it replaces, and that every handler "
-            "model meets every clause of the property except in three corners that the unchanged code really has (recorded as known findings with "
+            "model meets every clause of the property except in four corners that the unchanged code really has (recorded as known findings with "
             "witnesses proved in Lean). The relay set-up of New (which round tripper the reverse proxy gets, which of its fields are set from which "
             "configuration field or constant, the client-facing server's timeouts and handler chain) is translated semantically and INTERPRETED by "
             "the model: it is proved that today's set-up puts no bound on the daemon's time to first byte under any configuration, hence a relayed call "
@@ -53,7 +51,10 @@ META = {
             "Pins, only-hash=true adds nothing, repo/stat sums a peer iff its call succeeded), that error-means-no-operation holds at full strength for "
             "pin add/rm/ls and repo/stat and fails for pin/update, add and repo/gc exactly through the trailing Unpin resp. the final X-Stream-Error, "
             "that a dropped return, an arm answering 200 or an ignored error break these statements (refutations), and that the hand-written handler "
-            "models agree with the interpreted structures (status and RPC outcomes) on every environment. The model is tied to the code by sending thousands of seeded raw HTTP requests through the real proxy between a "
+            "models agree with the interpreted structures (status and RPC outcomes; repo/gc also the X-Stream-Error trailer; repo/stat one RepoStat "
+            "outcome per peer) on every environment. The repo/gc model takes the query: a collection that reported a peer or key error is answered "
+            "200 + X-Stream-Error unless stream-errors=true (literal spelling) — the fourth corner (known finding K12d), proved to be exactly that "
+            "condition, witnessed in Lean, generated for every stream-errors value and matched on the real proxy. The model is tied to the code by sending thousands of seeded raw HTTP requests through the real proxy between a "
             "recording daemon and recording cluster RPC services, comparing with the model and evaluating the Lean property clauses on the real observations.",
     "note": "Trusted: Lean kernel, hand-written model/spec, harness fakes and dependency oracles (go-path, go-cid, multipart/DAG-builder acceptance), "
             "translator. net/http, httputil.ReverseProxy and gorilla/mux are modelled, not verified.",
